@@ -16,12 +16,15 @@ decision of `gen_coords` / `BuildSystem.__init__`, `_compute_box_size`, `_compos
 PARTIAL where the truth lives in floating point or in another property: "finite" is modelled as "a
 position is present" (`Option`), the finiteness of a backmapped coordinate rests on scipy's optimiser
 returning finite angles; that a successful random walk has placed every residue is C17's completeness
-theorem and enters `C03_all_positioned` as the hypothesis `hwalk`; the cube root and the rounding are
-real-number functions, the implementation uses doubles.
+theorem and is USED as a theorem by `C03_all_positioned` (no hypothesis about the walk; the older abstract
+form with the hypothesis `hwalk` is kept as `C03_compose_positioned_partial`); the cube root and the rounding
+are real-number functions, the implementation uses doubles.
 -/
 import PolyplyVerif.Generated.CoordsTables
 import PolyplyVerif.Model.Coords
 import PolyplyVerif.Proofs.Coords
+import PolyplyVerif.Model.Walk
+import PolyplyVerif.Proofs.Walk
 
 namespace PolyplyVerif.C03
 open PolyplyVerif PolyplyVerif.Coords PolyplyVerif.Proofs.Coords
@@ -108,14 +111,104 @@ theorem C03_box_cube (mass rho : ℝ) (hm : 0 ≤ mass) (hr : 0 < rho) :
 
 example : (0 : ℝ) ≤ 720 ∧ (0 : ℝ) < 1000 := by norm_num
 
-/-- At successful termination every atom has a position, for every schedule of failed and successful
-placement attempts: `_compose_system` returns only after each molecule either carried positions for all
-residues or had a successful random walk, and backmapping then gives a position to every atom of every
-residue flagged `backmap`, the others having complete input coordinates (`inputOk`, guaranteed by
-`add_positions_from_file`).  `hwalk` — a successful `RandomWalk.run_molecule` leaves every residue with a
-position and does not touch flags or atom positions — is C17's completeness statement, a hypothesis
-here (see the module docstring: partial). -/
-theorem C03_all_positioned {P : Type} (walk : Nat → Nat → Mol P → Option (Mol P)) (place : P → Nat → P)
+/-! ### the default start grid (`BuildSystem.__init__`, repaired by 28d4aca) -/
+
+/-- **Every start point is a legal position, for ALL box lengths and spacings.**  The default grid
+`np.mgrid[0:box:spacing]` (x3, reshaped) filtered by `< box` holds exactly the points
+`(i·s, j·s, k·s)` with `i·s < box_x`, `j·s < box_y`, `k·s < box_z` (iff), so every one of them lies in
+`[0, box)` in every dimension — for every box (also non-cubic, also an exact multiple of the spacing,
+where the point `box` itself is NOT produced) and every positive spacing. -/
+theorem C03_grid_inside (box : Box) (s : Rat) (hs : 0 < s) :
+    (∀ p, p ∈ startGrid box s ↔ ∃ i j k : Nat, p = ((i : Rat) * s, (j : Rat) * s, (k : Rat) * s) ∧
+      (i : Rat) * s < box.1 ∧ (j : Rat) * s < box.2.1 ∧ (k : Rat) * s < box.2.2) ∧
+    ∀ p ∈ startGrid box s, (0 ≤ p.1 ∧ p.1 < box.1) ∧ (0 ≤ p.2.1 ∧ p.2.1 < box.2.1) ∧ (0 ≤ p.2.2 ∧ p.2.2 < box.2.2) :=
+  ⟨mem_startGrid box s hs, fun p hp => (insideBox_iff box p).mp (startGrid_inside box s hs p hp)⟩
+
+-- box 21/10 with spacing 3/10 (the input of the repaired defect): 7 points per axis, the last is 18/10
+example : (startGrid (21 / 10, 21 / 10, 21 / 10) (3 / 10)).length = 343 ∧
+    ((18 / 10, 18 / 10, 18 / 10) : Box) ∈ startGrid (21 / 10, 21 / 10, 21 / 10) (3 / 10) ∧
+    ((21 / 10, 0, 0) : Box) ∉ startGrid (21 / 10, 21 / 10, 21 / 10) (3 / 10) := by
+  decide +kernel
+
+/-- **The grid is never empty**: for every box with positive edges and every positive spacing the
+origin is a grid point, so `np.random.randint(len(box_grid))` is defined; the number of points is the
+product of the per-axis counts `⌈box/s⌉`; and (exact arithmetic) the filter of 28d4aca drops nothing. -/
+theorem C03_grid_nonempty (box : Box) (s : Rat) (hs : 0 < s) (hb : 0 < box.1 ∧ 0 < box.2.1 ∧ 0 < box.2.2) :
+    ((0, 0, 0) : Box) ∈ startGrid box s ∧ specGrid box (startGrid box s) = true ∧
+    (startGrid box s).length = mgridCount box.1 s * (mgridCount box.2.1 s * mgridCount box.2.2 s) ∧
+    startGrid box s = product3 (mgridAxis box.1 s) (mgridAxis box.2.1 s) (mgridAxis box.2.2 s) :=
+  ⟨origin_mem_startGrid box s hs hb, specGrid_startGrid box s hs hb, startGrid_length box s hs,
+   startGrid_eq_product box s hs⟩
+
+example : startGrid (1, 1 / 2, 3 / 4) (1 / 2) = [(0, 0, 0), (0, 0, 1 / 2), (1 / 2, 0, 0), (1 / 2, 0, 1 / 2)] := by
+  decide +kernel
+
+/-- **… and this does not rest on exact arithmetic**: whatever per-axis values `np.mgrid` produces in
+floating point (rounded quotient, one point more or less, rounded products) — as long as they are not
+negative, every point that survives the filter `< box` is inside `[0, box)`; a point ON the upper box
+face (the defect before 28d4aca: box 2.1, spacing 0.3 gives `7·0.3 = 2.1`) is removed. -/
+theorem C03_grid_filter (box : Box) (xs ys zs : List Rat)
+    (hx : ∀ x ∈ xs, 0 ≤ x) (hy : ∀ y ∈ ys, 0 ≤ y) (hz : ∀ z ∈ zs, 0 ≤ z) :
+    (∀ p ∈ gridFilter box (product3 xs ys zs), insideBox box p = true) ∧
+    ∀ p ∈ gridFilter box (product3 xs ys zs), p.1 ≠ box.1 ∧ p.2.1 ≠ box.2.1 ∧ p.2.2 ≠ box.2.2 := by
+  refine ⟨gridFilter_inside box xs ys zs hx hy hz, ?_⟩
+  intro p hp
+  have h := (insideBox_iff box p).mp (gridFilter_inside box xs ys zs hx hy hz p hp)
+  exact ⟨ne_of_lt h.1.2, ne_of_lt h.2.1.2, ne_of_lt h.2.2.2⟩
+
+-- the float case of the repaired defect: the axis carries the value 21/10 = box; the filter removes it
+example : gridFilter (21 / 10, 1, 1) (product3 [0, 18 / 10, 21 / 10] [0] [0]) = [(0, 0, 0), (18 / 10, 0, 0)] := by
+  decide +kernel
+
+/-- **At successful termination every atom has a position — no hypothesis about the walk.**
+The placement state machine is the one of C17 (`Walk.run`, tied to `RandomWalk`/`BuildSystem` by the
+scripted-schedule correspondence): for EVERY schedule of trial outcomes (rewinds, abandoned attempts,
+give-ups after `maxiter`), every rewind depth, every system whose built molecules are well formed — if
+`_compose_system` leaves its loop, then for every molecule of the topology, after
+`update_positions_in_molecules` (`writeBack`) and `Backmap._place_init_coords` (`backmapMol`) every atom
+of every residue carries a position.  The residue data `rs` (flags, atom positions on entry) is arbitrary
+up to what `add_positions_from_file` guarantees: a residue that is not backmapped has all its atom
+positions (`hin`, C04_consume), and an ignored molecule — which the engine never sees — carries a
+position for every residue (`hign`: `-ign` needs complete input for the ignored types).  That a finished
+run has positioned every residue is `C17_complete`, used here as a THEOREM. -/
+theorem C03_all_positioned (cfg : Walk.Cfg) (mols : List Walk.Mol) (wfs : Walk.AllWF mols) (sched : List Bool)
+    (hdone : (Walk.run cfg mols sched (Walk.init mols)).phase = .done)
+    (place : Nat → Nat → Nat) (j : Nat) (m : Walk.Mol) (hm : mols[j]? = some m) (rs : Walk.Node → Res Nat)
+    (hin : ∀ n ∈ m.nodes, ((rs n).backmap || (rs n).atoms.all Option.isSome) = true)
+    (hign : m.ignored = true → ∀ n ∈ m.nodes, (rs n).pos.isSome = true) :
+    (backmapMol place (writeBack (Walk.run cfg mols sched (Walk.init mols)).eng j m rs)).atomsPlaced = true := by
+  apply backmap_places
+  · -- every residue has a position: supplied for an ignored molecule, C17_complete otherwise
+    simp only [Mol.allPlaced, writeBack, List.all_map, List.all_eq_true]
+    intro n hn
+    cases hig : m.ignored with
+    | true => simpa [hig] using hign hig n hn
+    | false =>
+      simpa [hig] using Proofs.Walk.complete cfg mols wfs sched hdone j m hm hig n hn
+  · simp only [Mol.inputOk, writeBack, List.all_map, List.all_eq_true]
+    intro n hn
+    cases hig : m.ignored with
+    | true => simpa [hig] using hin n hn
+    | false => simpa [hig] using hin n hn
+
+/-- non-vacuity: the system of `C17` (chain with a supplied residue, an ignored molecule, a three-residue
+molecule) under a schedule with a rewind; the run ends and molecule 0 has positions for every atom -/
+example :
+    let mols : List Walk.Mol := [⟨[0, 1, 2, 3], [(1, 0), (1, 2), (2, 3)], 1, [0, 2, 3], [(1, 900)], false⟩,
+      ⟨[0, 1], [(0, 1)], 0, [], [(0, 901), (1, 902)], true⟩, ⟨[5, 6, 7], [(5, 6), (5, 7)], 5, [5, 6, 7], [], false⟩]
+    let sched := [true, true, false, true, true, true, true, true]
+    let fin := Walk.run ⟨2, 80⟩ mols sched (Walk.init mols)
+    let rs : Walk.Node → Res Nat := fun n => if n = 1 then ⟨false, false, some 900, [some 1, some 2]⟩ else ⟨true, true, none, [none, none]⟩
+    fin.phase = .done ∧
+    (backmapMol (fun cg k => cg + k) (writeBack fin.eng 0 mols[0] rs)).atomsPlaced = true ∧
+    ((writeBack fin.eng 0 mols[0] rs).map (·.pos)) = [some 0, some 900, some 2, some 3] := by
+  decide
+
+/-- The same conclusion for the abstract form of `_compose_system` in which one complete attempt of
+`_handle_random_walk` is an arbitrary function `walk`.  PARTIAL: `hwalk` (a successful attempt leaves every
+residue positioned and does not touch flags or atom positions) is a hypothesis about that function; for the
+real placement machine it is discharged by `C03_all_positioned` above. -/
+theorem C03_compose_positioned_partial {P : Type} (walk : Nat → Nat → Mol P → Option (Mol P)) (place : P → Nat → P)
     (fuel : Nat)
     (hwalk : ∀ idx k m m', walk idx k m = some m' → m'.allPlaced = true ∧ (m.inputOk = true → m'.inputOk = true))
     (mols out : List (Mol P)) (hin : ∀ m ∈ mols, m.inputOk = true)
